@@ -302,7 +302,7 @@ def normalize(scn, raw):
             if e.get("ctx") != "thread2":
                 out.append({"e": "ShutdownCall", "teardown": n == "teardown.begin"})
         elif n == "shutdown.ret":
-            out.append({"e": "ShutdownRet", "ok": bool(e["ok"])})
+            out.append({"e": "ShutdownRet", "ok": bool(e["ok"]), "exc": e.get("exc", "")})
         elif n == "exec.call":
             out.append({"e": "ExecCall", "x": "x%d" % e["call"]})
         elif n == "x.start":
@@ -414,6 +414,16 @@ def fingerprint(name, scn, ev, idx):
     if name in ("CleanupBeforeEnd", "NoStepAfterEnd", "TerminationObserved", "FailStopSafe", "CauseFaithful", "FailStopObserved"):
         ret = next((x for x in ev if x["e"] == "AcceptRet" and x.get("r") == 1), None)
         fp["accept_exc"] = ret.get("exc", "") if ret else "(still running)"
+    if name == "ShutdownDoesNotRaise":
+        ret = next((x for x in ev if x["e"] == "ShutdownRet" and not x.get("ok", True)), {})
+        fp["exception"] = ret.get("exc", "")
+        fp["raced_failure"] = any(x["e"] == "End" and x.get("how") in ("val", "exc", "base") for x in ev)
+    if name in ("ExecReturnsObserved", "AdoptReturnsObserved", "TerminationObserved"):
+        # is an adopt() still waiting to return at the end of the trace (cross-flavour blocking)?
+        calls = [x["p"] for x in ev if x["e"] == "AdoptCall"]
+        rets = [x["p"] for x in ev if x["e"] == "AdoptRet"]
+        fp["pending_adopt"] = sorted(set(calls) - set(rets)) != []
+        fp["pending_execute"] = len([x for x in ev if x["e"] == "ExecCall"]) > len([x for x in ev if x["e"] == "ExecRet"])
     if name == "CleanupBeforeEnd":
         # which coroutine payloads were started but not finished when accept() ended, and were
         # they all adopted only after termination had been triggered?
